@@ -25,12 +25,21 @@ def C02(t0):
     jobs = [('min decode algebra', curve.check_decode_algebra, ('min',)), ('ark decode algebra', curve.check_decode_algebra, ('ark',)),
             ('min decode funnel', wiring.check_decode_funnel, ('min',)), ('ark decode funnel', wiring.check_decode_funnel, ('ark',))] + S_ZERO() + W_PARSE()
     curve.items_for('min'); curve.items_for('ark')
-    obs = par.run_groups(jobs)
+    obs = par.run_groups(_fl(jobs))
     return finish('C02', obs, t0, level='proof',
         functions=['ark_curve::encoding::Encoding::vartime_decompress', 'min_curve::element::Encoding::vartime_decompress', 'fields::fq::ops (operator forms reached)', 'sign::Sign'],
         bounds=['all 2^256 byte strings (bytes symbolic; canonical parse by contract)', 'no loop in scope'],
         trusted=[T_RUSTC, T_ARK, 'contract S (square-root-of-ratio, property C09) and W (wrappers) as stated in DESIGN 2.1'],
         assumptions=['field elements are modelled as polynomials over F_q in the input symbols; sign is an uninterpreted predicate with neg(0)=false, neg(-x)=!neg(x) for x!=0'])
+
+def _fl(jobs, ark_only=False):
+    """the field layer (contracts K and W: fiat kernels, wrappers, operator forms, conversions of Fq/Fr/Fp on both backends) below
+    every element-level property: a field-level change breaks the element-level property too, so each check decides the layer it
+    stands on instead of trusting another check to have done so"""
+    from . import fields
+    have = {j[0] for j in jobs}
+    extra = [(j[0] + ' [field layer]', j[1], j[2]) for j in fields.jobs_shared() if j[0] not in have and (not ark_only or j[0].startswith('ark') or j[0] == 'Fq::power')]
+    return list(jobs) + extra
 
 def _warm():
     from . import curve
@@ -44,10 +53,11 @@ def C03(t0):
         from . import wiring
         jobs += [(f'{b} encode algebra', curve.check_encode_algebra, (b,)), (f'{b} encode invariance', curve.check_encode_invariance, (b,)),
                  (f'{b} compress/serialise forms', wiring.check_compress_forms, (b,))]
+    jobs += [('ark conversions / unary element functions (coordinate level)', curve.check_unary_poly, ()), ('ark batch normalisation (coordinate level)', curve.check_batch_poly, ())]
     jobs += S_ZERO()
-    obs = par.run_groups(jobs)
+    obs = par.run_groups(_fl(jobs))
     return finish('C03', obs, t0, level='proof',
-        functions=['Element::vartime_compress_to_field (ark_curve/encoding.rs, min_curve/element.rs)', 'sign::Sign::abs', 'fields::fq::ops operator forms reached'],
+        functions=['Element::vartime_compress_to_field (ark_curve/encoding.rs, min_curve/element.rs)', 'sign::Sign::abs', 'fields::fq::ops operator forms reached', 'every Element <-> AffinePoint conversion, into_affine, normalize_batch, batch_convert_to_mul_base, Clone, double_in_place (coordinate level)', 'the field layer (see C10/C11)'],
         bounds=['all (X,Y,Z,T) symbolic; rescaling factor lam symbolic and nonzero; no loops in scope'],
         trusted=[T_RUSTC, T_ARK, 'contract S (C09) and lemma L-scale derived from it: sqrt_ratio(1, lam^4 D) and sqrt_ratio(1, D) agree in the flag and differ by the factor +-lam^2 (uses: zeta is a non-square, F_q is a field)',
                  'injectivity ("unequal elements encode differently") is the Decaf theorem and is not decided'],
@@ -59,7 +69,7 @@ def C07(t0):
     from . import wiring
     jobs = [(f'{b} elligator', curve.check_elligator, (b,)) for b in ('min', 'ark')] + [(f'{b} hash_to_curve wiring', wiring.check_hash_to_curve, (b,)) for b in ('min', 'ark')]
     jobs += S_FULL()
-    obs = par.run_groups(jobs)
+    obs = par.run_groups(_fl(jobs))
     return finish('C07', obs, t0, level='proof',
         functions=['Element::elligator_map (ark_curve/elligator.rs, min_curve/element.rs)', 'ark_curve::constants::{ONE,TWO,ZETA} initialisers', 'TECurveConfig::COEFF_A/COEFF_D'],
         bounds=['all r0 (symbolic); no loops in scope'],
@@ -67,13 +77,14 @@ def C07(t0):
         assumptions=['field elements as polynomials over F_q; sign as an uninterpreted predicate'])
 
 def C04(t0):
-    from . import group
+    from . import group, curve
     _warm()
     jobs = [('ark operator forms', group.sweep_operator_forms, ('ark', ['src/ark_curve/ops/projective.rs', 'src/ark_curve/ops/affine.rs'])),
             ('min operator forms', group.sweep_operator_forms, ('min', ['src/min_curve/ops.rs'])),
             ('ark sums and named methods', group.check_sums_and_named, ('ark',)),
-            ('min group law', group.check_min_group_law, ())]
-    obs = par.run_groups(jobs)
+            ('min group law', group.check_min_group_law, ()),
+            ('ark conversions / unary element functions (coordinate level)', curve.check_unary_poly, ()), ('ark negate (coordinate level)', curve.check_negate_poly, ())]
+    obs = par.run_groups(_fl(jobs))
     return finish('C04', obs, t0, level='proof',
         functions=['every impl of Add/Sub/Neg/Mul/AddAssign/SubAssign/MulAssign in ark_curve/ops/{projective,affine}.rs and min_curve/ops.rs (enumerated from the MIR)',
                    'Sum impls (4), negate, double_in_place, zero/default, conversions', 'min_curve Element::{add, double, neg}'],
@@ -96,7 +107,8 @@ def C17(t0):
 def C08(t0):
     from . import curve
     _warm()
-    obs = par.run_groups([(f'{b} equality/hash/identity coherence', curve.check_equality_coherence, (b,)) for b in ('ark', 'min')])
+    obs = par.run_groups(_fl([(f'{b} equality/hash/identity coherence', curve.check_equality_coherence, (b,)) for b in ('ark', 'min')] +
+                             [('ark conversions / unary element functions (coordinate level)', curve.check_unary_poly, ()), ('ark batch normalisation (coordinate level)', curve.check_batch_poly, ())]))
     return finish('C08', obs, t0, level='proof',
         functions=['PartialEq for Element/AffinePoint (both builds)', 'Hash for Element/AffinePoint', 'Element::is_identity', 'Zero::is_zero', 'AffineRepr::is_zero', '== IDENTITY, == default()'],
         bounds=['all coordinates symbolic; representatives: rescaling by lam != 0, coset shift (-X,-Y,Z,T)'],
@@ -109,7 +121,7 @@ def C05(t0):
     jobs = [(f'min ladder CT={ct} limbs={n}', group.check_min_ladders, (5, (ct, n))) for ct in (True, False) for n in range(1, 6)] + [ ('min ladder wrappers', group.check_scalar_mul_wiring, ('min',)), ('ark scalar-mul wiring', group.check_scalar_mul_wiring, ('ark',)),
             ('ark Mul forms', group.sweep_operator_forms, ('ark', ['src/ark_curve/ops/projective.rs', 'src/ark_curve/ops/affine.rs'])), ('min Mul forms', group.sweep_operator_forms, ('min', ['src/min_curve/ops.rs'])),
             ('ark group order', consts.check_group_order, ('ark',)), ('min group order', consts.check_group_order, ('min',))]
-    obs = par.run_groups(jobs)
+    obs = par.run_groups(_fl(jobs))
     return finish('C05', obs, t0, level='proof',
         functions=['min_curve Element::scalar_mul_both::<true|false>, scalar_mul, scalar_mul_vartime', 'all Mul/MulAssign impls (both builds)', 'Group::mul_bigint, AffineRepr::mul_bigint, Element::vartime_multiscalar_mul', 'Element::GENERATOR (order)'],
         bounds=['ladders: slices of 1..=5 symbolic 64-bit limbs (320 bits, longer than the modulus); longer slices outside the claim', 'multiscalar: 0..=3 pairs (5 in thorough) and unequal lengths',
@@ -123,8 +135,8 @@ def C06(t0):
     jobs = [('ark constructors', group.check_constructors, ()), ('ark decode funnel', wiring.check_decode_funnel, ('ark',)), ('ark curve constants', consts.check_curve_constants, ('ark',)),
             ('ark group order', consts.check_group_order, ('ark',)), ('ark decode algebra (on-curve of decoded points)', curve.check_decode_algebra, ('ark',)),
             ('min decode algebra', curve.check_decode_algebra, ('min',)), ('min curve constants', consts.check_curve_constants, ('min',)),
-            ('ark batch normalisation (coordinate level)', curve.check_batch_poly, ())] + S_ZERO()
-    obs = par.run_groups(jobs)
+            ('ark batch normalisation (coordinate level)', curve.check_batch_poly, ()), ('ark conversions / unary element functions (coordinate level)', curve.check_unary_poly, ())] + S_ZERO()
+    obs = par.run_groups(_fl(jobs))
     return finish('C06', obs, t0, level='proof',
         functions=['AffineRepr::{zero, generator, from_random_bytes, clear_cofactor, mul_by_cofactor_to_group}', 'Group::generator', 'Default for Element/AffinePoint', 'Distribution<Element|AffinePoint>::sample',
                    'CurveGroup::{normalize_batch, into_affine}', 'ScalarMul::batch_convert_to_mul_base', 'all deserialisers (decode funnel)', 'Element::{GENERATOR, IDENTITY}'],
@@ -140,7 +152,7 @@ def C09(t0):
             ('ark table-driven sqrt (LOG)', sqrt.check_sqrt_ark_log, ()), ('min Tonelli-Shanks (LOG)', sqrt.check_sqrt_min_log, ()),
             ('legendre', sqrt.check_legendre, ()), ('ark field constants (SQRT_PRECOMP etc.)', consts.check_field_constants, ('ark',)),
             ('ark curve constants (zeta, M, G, ...)', consts.check_curve_constants, ('ark',)), ('min curve constants', consts.check_curve_constants, ('min',))]
-    obs = par.run_groups(jobs)
+    obs = par.run_groups(_fl(jobs))
     return finish('C09', obs, t0, level='proof',
         functions=['ark_curve::invsqrt::{SquareRootTables::new, Fq::sqrt_ratio_zeta} (incl. the Lazy tables, evaluated from their real initialiser)', 'min_curve::invsqrt::{non_arkworks_sqrt_ratio_zeta, our_sqrt, pow_le_limbs}',
                    'Field::legendre (Fq, Fr, Fp)', 'constants used by the routines'],
@@ -159,6 +171,7 @@ def _jobs_C03():
     jobs = []
     for b in ('min', 'ark'):
         jobs += [(f'{b} encode algebra', curve.check_encode_algebra, (b,)), (f'{b} encode invariance', curve.check_encode_invariance, (b,)), (f'{b} compress/serialise forms', wiring.check_compress_forms, (b,))]
+    jobs += [('ark conversions / unary element functions (coordinate level)', curve.check_unary_poly, ()), ('ark batch normalisation (coordinate level)', curve.check_batch_poly, ())]
     return jobs
 
 def C01(t0):
@@ -166,7 +179,7 @@ def C01(t0):
     from . import curve, group
     _warm()
     jobs = _jobs_C02() + _jobs_C03() + S_FULL() + W_PARSE() + [('ark negate/named element methods', group.check_sums_and_named, ('ark',)), ('ark negate keeps the representation invariant (coordinate level)', curve.check_negate_poly, ())]
-    obs = par.run_groups(jobs)
+    obs = par.run_groups(_fl(jobs))
     return finish('C01', obs, t0, level='proof',
         functions=['vartime_decompress, vartime_compress_to_field, vartime_compress (both builds)', 'both square-root routines', 'sign::Sign', 'all decoding/encoding entry points', 'Element::negate'],
         bounds=['as C02, C03, C09: all byte strings, all coordinates, slice lengths 0..=80'],
@@ -235,7 +248,7 @@ def C13(t0):
     _warm()
     jobs = [(f'honest synthesis: {g}', r1cs.check_honest_gadgets, (g,)) for g in ('isqrt', 'sign gadgets', 'compress_to_field', 'decompress_from_field', 'elligator_map', 'is_eq')]
     jobs += [('lazy forcing', r1cs.check_lazy_forcing, ())] + [(f'ElementVar op #{i} variant {v}', r1cs.check_r1cs_ops, ((i, v),)) for i in range(10) for v in (0, 1)] + S_ZERO()[:1]
-    obs = par.run_groups(jobs)
+    obs = par.run_groups(_fl(jobs, ark_only=True))
     return finish('C13', obs, t0, level='proof',
         functions=['r1cs/fqvar_ext.rs: isqrt, is_nonnegative, is_negative, abs', 'r1cs/inner.rs: compress_to_field, decompress_from_field, elligator_map, is_eq', 'r1cs/lazy.rs: element(), encoding() in all orders',
                    'r1cs/ops.rs + element.rs: Add/Sub/AddAssign/SubAssign forms, double_in_place, negate (incl. cached encodings)'],
@@ -248,7 +261,7 @@ def C14(t0):
     from . import r1cs
     _warm()
     jobs = [('isqrt with adversarial hints', r1cs.check_adversarial_isqrt, ()), ('decompress_from_field with adversarial hints', r1cs.check_adversarial_decode, ()), ('witness allocation with adversarial coordinates', r1cs.check_adversarial_alloc, ())]
-    obs = par.run_groups(jobs)
+    obs = par.run_groups(_fl(jobs, ark_only=True))
     return finish('C14', obs, t0, level='proof',
         functions=['FqVarExtension::isqrt (free flag and root witnesses)', 'inner::ElementVar::decompress_from_field', 'AllocVar<Element, Fq> for inner::ElementVar (witness mode)'],
         bounds=['all gadget inputs and all hint values symbolic (free witnesses); the Boolean hint is enumerated'],
